@@ -366,6 +366,14 @@ def rp66_file(rng, size='small', seven_bit=True, hostile_names=True, layout=None
             if nfr > 4 and rng.random() < 0.3:      # a gap in the frame numbers
                 g = rng.randrange(1, nfr)
                 numbers = numbers[:g] + [n + 5 for n in numbers[g:]]
+            if nfr > 5 and rng.random() < 0.12:
+                # frame numbers that are not regular in between although they start at 1 and end at n: two exchanged, or a duplicate
+                # and a skip that cancel out (the indexer accepts them; the XML index must then say the same)
+                g = rng.randrange(1, nfr - 2)
+                if rng.random() < 0.5:
+                    numbers[g], numbers[g + 1] = numbers[g + 1], numbers[g]
+                else:
+                    numbers[g] = numbers[g + 1]
             plan.append((f, numbers, xs))
         cursors = [0] * len(plan)
         while any(cursors[i] < len(plan[i][1]) for i in range(len(plan))):
